@@ -1734,3 +1734,42 @@ def reader_order_rule(rep, F):
                         if bad:
                             rep.violation("RW-container", "%s|%s" % (F.key(base), f["name"]), "the CBOR reader of %s computes the insertion-ordered field `%s` (%s) through %s: entries come back sorted / in hash order instead of in wire order - a value whose entries were inserted in another order does not decode to an equal value and re-encodes to different bytes" % (H_short(adt), f["name"], f["ty"][:60], ", ".join(H_short(b) for b in bad[:3])), {"file": fn.get("file")})
     rep.floor("ordered fields built by CBOR readers", 20, n)
+
+
+def dup_key_rule(rep, F):
+    """DUP-key: record-map readers refuse a repeated key"""
+    rep.rule("DUP-key", "in every record-map reader that dispatches on integer keys and guards at least one of them against repetition, every integer key arm contains the DuplicateKey(k) rejection for its own key: a repeated key would overwrite the decoded field and - where the original bytes of the field are kept (witness-set parts) - the bytes that are written back, so a field of the input disappears on re-serialisation")
+    n = 0
+    for fid, h in F.hir.items():
+        fn = F.fns.get(fid)
+        if fn is None or "/tests/" in h["file"] or not h["file"].startswith("src/serialization/") or fn.get("derive"):
+            continue
+        for m in H.walk(h["body"]):
+            if m[0] != "match":
+                continue
+            arms = []
+            for pat, g, body in m[3]:
+                for alt in H.pat_alternatives(pat):
+                    if alt and alt[0] == "plit" and alt[1][0] == "int":
+                        arms.append((int(alt[1][1]), body))
+            if len(arms) < 3:
+                continue
+
+            def dup_keys(body):
+                out = set()
+                for x in H.walk(body):
+                    if x[0] == "call" and str(x[2] or "").endswith("DuplicateKey") and x[4]:
+                        for y in H.walk(x[4][0]):
+                            v = H.lit_int(y) if y[0] == "lit" else None
+                            if v is not None:
+                                out.add(v)
+                return out
+            guarded = {k: dup_keys(b) for k, b in arms}
+            if not any(guarded.values()):
+                continue
+            for k, b in arms:
+                n += 1
+                rep.inst("DUP-key")
+                if not guarded[k]:  # the key named in the error is not judged (AuxiliaryData's key-4 arm reports DuplicateKey(3): a wrong message, the repetition is refused all the same)
+                    rep.violation("DUP-key", "%s|key %d" % (F.key(fid), k), "%s: the arm of map key %d has no DuplicateKey(%d) rejection (it guards %s) while the sibling arms refuse a repeated key: `a2 0%d .. 0%d ..` is accepted and the second entry silently replaces the first - FixedTransaction re-serialises only the last one" % (F.key(fid), k, k, sorted(guarded[k]) or "nothing", k, k), {"file": h["file"], "line": m[1]})
+    rep.floor("integer key arms of guarded record-map readers", 60, n)
